@@ -164,37 +164,70 @@ def _apply(mdg, base, op):
     if base == "frac3d":
         z = float(sec.nodes[2, 0])
         if k == "m":
-            mdg.replace_subdomains_and_interfaces(interface_map={intf: {s: _tri(op[1], z) for s in sides}})
+            _replace(mdg, interface_map={intf: {s: _tri(op[1], z) for s in sides}})
         elif k == "mside":
-            mdg.replace_subdomains_and_interfaces(interface_map={intf: {sides[op[1]]: _tri(op[2], z)}})
+            _replace(mdg, interface_map={intf: {sides[op[1]]: _tri(op[2], z)}})
         elif k == "s":
-            mdg.replace_subdomains_and_interfaces(sd_map={sec: _tri(op[1], z)})
+            _replace(mdg, sd_map={sec: _tri(op[1], z)})
         return
     seg = b["seg"]
     if k in ("m", "mg"):
-        mdg.replace_subdomains_and_interfaces(interface_map={intf: {s: _line(op[1], seg, k == "mg") for s in sides}})
+        _replace(mdg, interface_map={intf: {s: _line(op[1], seg, k == "mg") for s in sides}})
     elif k == "mside":
-        mdg.replace_subdomains_and_interfaces(interface_map={intf: {sides[op[1]]: _line(op[2], seg)}})
+        _replace(mdg, interface_map={intf: {sides[op[1]]: _line(op[2], seg)}})
     elif k in ("s", "sg"):
-        mdg.replace_subdomains_and_interfaces(sd_map={sec: _line(op[1], seg, k == "sg")})
+        _replace(mdg, sd_map={sec: _line(op[1], seg, k == "sg")})
     elif k == "sfine":
         fine = _pristine(b["p"])
         new = [g for g in fine.subdomains(dim=1) if np.ptp(g.nodes[1]) < 1e-12][0].copy()
         if sec.num_cells == new.num_cells:
             raise _Skip("already fine")
-        mdg.replace_subdomains_and_interfaces(sd_map={sec: new})
+        _replace(mdg, sd_map={sec: new})
     elif k == "p":
         fine = _pristine(b["p"])
         new = fine.subdomains(dim=prim.dim)[0].copy()
         if prim.num_cells == new.num_cells:
             raise _Skip("already fine")
-        mdg.replace_subdomains_and_interfaces(sd_map={prim: new})
+        _replace(mdg, sd_map={prim: new})
     else:
         raise ValueError(op)
 
 
 class _Skip(Exception):
     pass
+
+
+class _Impure(Exception):
+    pass
+
+
+def _grid_digest(g):
+    h = hashlib.blake2b(digest_size=12)
+    # sparse topology in canonical form (scipy may sort the indices of a matrix in place;
+    # that is a change of representation, not of the grid)
+    topo = []
+    for M in (g.cell_faces, g.face_nodes):
+        C = M.copy().tocsc()
+        C.sum_duplicates()
+        C.sort_indices()
+        topo += [C.data.astype(float), C.indices, C.indptr]
+    for a in [g.nodes, g.cell_volumes, g.cell_centers, g.face_centers, g.face_normals, g.face_areas] + topo:
+        h.update(np.ascontiguousarray(a).tobytes())
+    for k in sorted(g.tags):
+        h.update(np.ascontiguousarray(g.tags[k]).tobytes())
+    return h.hexdigest()
+
+
+def _replace(mdg, sd_map=None, interface_map=None):
+    """The real call, with a purity oracle on the grids handed in (the new grids are
+    copied / inserted, never documented as modified)."""
+    new = list((sd_map or {}).values())
+    for v in (interface_map or {}).values():
+        new += list(v.values())
+    before = [_grid_digest(g) for g in new]
+    mdg.replace_subdomains_and_interfaces(sd_map=sd_map, interface_map=interface_map)
+    if before != [_grid_digest(g) for g in new]:
+        raise _Impure("replace_subdomains_and_interfaces modified a replacement grid passed as argument")
 
 
 # ------------------------------------------------------------------ oracle
@@ -343,7 +376,7 @@ def run_case(case) -> Outcome:
             except Exception as e:
                 if i != len(h) - 1:
                     raise RuntimeError(f"harness: non-final op {op} of {h} raised {e!r}")
-                if op[0] == "p":
+                if op[0] == "p" and not isinstance(e, _Impure):
                     return Abort(f"primary replacement refused ({type(e).__name__})")
                 st.status = "exc"
                 st.info = repr(e)
@@ -365,6 +398,7 @@ def run_case(case) -> Outcome:
             o.ev("VIOLATION")
             return
         probs, nonm = [], False
+        d0 = (_digest(st.mdg, TO), _digest(st.mdg, FROM))
         for intf in st.mdg.interfaces():
             try:
                 P, nm = _check_interface(st.mdg, intf)
@@ -374,6 +408,8 @@ def run_case(case) -> Outcome:
                 P, nm = [f"projection query raised {e!r}"], False
             probs += [f"interface dim {intf.dim}: {p}" for p in P]
             nonm = nonm or nm
+        if not probs and d0 != (_digest(st.mdg, TO), _digest(st.mdg, FROM)):
+            probs.append("querying the projections changed them (second request on the same object differs)")
         if probs:
             o.violate("mortar projections do not conserve / preserve", base=base, history=st.hist, problems=probs[:6])
             o.ev("VIOLATION")
